@@ -26,7 +26,7 @@ def handleLine (line : String) : Verdict :=
     else if op.startsWith "srt." then handleSRT op args impl
     else if op.startsWith "conv." then handleConv op args impl
     else if op.startsWith "ts." then handleTs op args impl
-    else if op.startsWith "io." || op == "lib.scanner" || op == "det.write" || op == "conc.batch" || op.startsWith "tot." then handleIO op args impl
+    else if op.startsWith "io." || op == "lib.scanner" || op == "det.write" || op == "det.dupid" || op == "conc.batch" || op.startsWith "tot." then handleIO op args impl
     else if op.startsWith "vtt." then handleVTT op args impl
     else if op.startsWith "ssa." then handleSSA op args impl
     else if op.startsWith "teletext." then handleTeletext op args impl
